@@ -105,5 +105,8 @@ def programs():
     add("optional-array-then-break", [chunked([field("a", "char"), array("xs", "char", optional="true"), brk(), field("name", "string"), brk(), field("title", "string")])])
     add("optional-items-then-break", [chunked([field("s", "string", optional="true"), brk(), field("p", "P", optional="true"), brk(),
                                                array("ys", "short", length="2", optional="true"), brk(), field("tail", "string")])])
+    # very wide padded fields (more fill bytes than any small block), and a fixed array of length zero
+    add("wide-padded", [field("a", "string", length="300", padded="true"), field("b", "encoded_string", length="301", padded="true"), field("n", "char")])
+    add("zero-length-array", [field("a", "char"), array("reserved", "char", length="0"), field("b", "char")])
     add("two-chunked-sections-then-field", [chunked([field("a", "string")]), chunked([field("b", "string")]), field("c", "string")])
     return out
